@@ -92,6 +92,9 @@ func c01Alphabet(tier string) []seqSym {
 		sy("SET", "k1", "a", "FIELD", "z", "1", "POINT", "1", "2"),
 		sy("SET", "k1", "a", "NX", "XX", "POINT", "1", "2"),
 		sy("SET", "k1", "a", "POINT", "1", "x"),
+		sy("SET", "k1", "a", "POINT", "NaN", "1"),
+		sy("SET", "k1", "a", "POINT", "1", "2", "+Inf"),
+		sy("SET", "k1", "a", "BOUNDS", "1", "2", "Inf", "4"),
 		sy("FSET", "k1", "a", "f"),
 		sy("DEL", "k1"),
 		sy("DEL", "k1", "a", "BOGUS"),
